@@ -98,7 +98,7 @@ func (r *run) record(n *cnode, ev string, msg obj, extra obj) {
 	}
 	vals := []obj{}
 	for _, v := range n.validations {
-		vals = append(vals, obj{"h": absNum(v.height), "blk": v.body, "ok": v.ok})
+		vals = append(vals, obj{"h": absNum(v.height), "blk": v.body, "ok": v.ok, "by": v.by})
 	}
 	commits := []obj{}
 	for _, c := range n.commits {
@@ -112,7 +112,11 @@ func (r *run) record(n *cnode, ev string, msg obj, extra obj) {
 	if proposed == nil {
 		proposed = []string{}
 	}
-	line := obj{"proposed": proposed, "ev": ev, "n": idName(n.idx), "msg": msg, "post": n.nodeState(), "sent": sent, "stores": stores, "vals": vals,
+	proposedBy := n.proposedBy
+	if proposedBy == nil {
+		proposedBy = []string{}
+	}
+	line := obj{"proposed": proposed, "proposedby": proposedBy, "ev": ev, "n": idName(n.idx), "msg": msg, "post": n.nodeState(), "sent": sent, "stores": stores, "vals": vals,
 		"commits": commits, "rounds": rounds, "props": n.proposals, "panic": n.panicked != ""}
 	for k, v := range extra {
 		line[k] = v
